@@ -262,7 +262,7 @@ func (s *Server) Alive() bool {
 	}
 	defer c.Close()
 	v, err := c.Do("PING")
-	return err == nil && v.Kind == '+'
+	return err == nil && (v.Kind == '+' || v.Kind == '$') && !v.Null
 }
 
 func (s *Server) Stop() {
